@@ -377,3 +377,45 @@ check(
     level_note="trusted: long double libm (expl, logl, powl, atan2l ...); complex dot is taken as the bilinear sum the library documents by its use (no conjugation)",
     assumptions=["arguments whose squares or powers overflow are not generated; delayseq is only instantiable for real arrays"],
 )
+
+check(
+    "C18",
+    runs=[dict(harness="C18_delay", flavour="plain")],
+    rule=("white signals of 128, 129 and 200 samples with every integer shift in [-len/4, len/4], noiseless and with noise 30..60 dB below, "
+          "real and complex, plus signals to 5000 samples with sampled shifts and sampling rates 1..48000: finddelay == d exactly, "
+          "|gccphat.tau*fs - d| <= 0.5, delayseq == exact shift with zero fill, peakloc(real) == vertex of the parabola (long double); "
+          "PreambleDetector with Zadoff-Chu (16..512) and m-sequence (31..511) preambles embedded at every offset modulo the frame length "
+          "(quick: a seeded stride of F/24), amplitudes -40..+20 dB, noise 30..60 dB below, thresholds 0.3..0.9, and preamble-free streams: "
+          "the first report is judged against a long-double normalised matched-filter statistic (frame and offset of the first sample above "
+          "1.07*thr, bitwise aligned preamble samples, score near 1 at the true end; silence when the statistic stays below 0.93*thr; "
+          "streams entering the band first are skipped and counted). distinct = (configuration, signal bits)."),
+    min_distinct={"quick": 700, "thorough": 4000},
+    min_obs={"quick": {"delay_cases": 500, "detections_at_true_preamble_end": 100, "detector_streams_expecting_silence": 10},
+             "thorough": {"delay_cases": 1000, "detections_at_true_preamble_end": 1000, "detector_streams_expecting_silence": 100}},
+    technique="runtime monitor: ground truth by construction for delays; long-double matched-filter statistic as oracle for the first detection event of a stream",
+    level_text=("Estimators are executed on signals whose delay / preamble position is known by construction; the detector's first report "
+                "is compared with an extended-precision evaluation of its documented statistic. Held on the streams counted in the evidence."),
+    level_note="trusted: the long-double statistic r = |h^H x|^2/(|h|^2 |x|^2); only the first detection of a stream is judged (the ring buffer skips the rest of a reporting frame)",
+    assumptions=["complex delayseq does not instantiate, complex shifts are made by the harness", "complex peakloc is Jacobsen's estimator, not a parabola, and is not judged"],
+)
+
+check(
+    "C19",
+    runs=[dict(harness="C19_noise", flavour="plain")],
+    rule=("awgn for lengths 1e4..1e5 (quick) / 1e6 (thorough), requested SNR -10..80 dB, signal powers over 120 dB, tones / broadband / "
+          "two-level signals, real and complex: noise power (sum over both components for complex) within 6 standard errors (sqrt(2/n) real, "
+          "sqrt(1/n) complex) of P_x/10^(snr/10), zero mean, lag-1..8 autocorrelation within 6/sqrt(n), 4th standardised moment within "
+          "6*sqrt(24/n) of 3, complex components uncorrelated and of equal power; noise-free tones (on/off bin) with 1..5 harmonics at "
+          "-10..-40 dBc, >= 100 bins apart, lengths 2048..2^17 incl. non powers of two, amplitudes over 80 dB: thd within 0.1 dB, component "
+          "frequencies within 0.1 bin, harmonic levels within 0.1 dB, sinad within 1.5 dB, thd/sinad/snr scale invariant within 1e-3 dB; "
+          "rng(seed) for seeds 0..1000 (quick: every 7th): an interleaved rand/randn/randi/awgn script replays bitwise and every bounded draw "
+          "stays inside its inclusive bounds. distinct = (configuration, signal bits)."),
+    min_distinct={"quick": 250, "thorough": 1500},
+    min_obs={"quick": {"awgn_cases_real": 25, "awgn_cases_complex": 25, "thd_cases": 50, "replayed_scripts": 100},
+             "thorough": {"awgn_cases_real": 100, "awgn_cases_complex": 100, "thd_cases": 250, "replayed_scripts": 1000}},
+    technique="runtime monitor: statistical oracles with explicit standard-error tolerances on y-x, analytic tone/harmonic ground truth, bitwise replay of generator scripts",
+    level_text=("The noise actually injected (y - x) is measured and compared with the requested power at 6 standard errors; measurement "
+                "functions are judged on signals whose harmonic content is known by construction; generator scripts are replayed bitwise. "
+                "Held on the cases counted in the evidence; a bias below 6 standard errors at the largest n is not detectable."),
+    level_note="trusted: Gaussian sampling theory for the estimator variances; 6-sigma tolerances give a false-alarm probability below 1e-7 per test",
+)
